@@ -401,7 +401,7 @@ void h_refused_unknown(void)
     double complex *m[4] = { &c[0], &c[1], &c[2], &c[3] };
     vnacal_t *vcp;
     vnacal_new_t *vnp;
-    int u, rc, eq0, unk0;
+    int u, u2, rc, eq0, unk0, hash0, hold0;
 
     for (int i = 0; i < 4; ++i)
 	c[i] = mv[i];
@@ -415,6 +415,8 @@ void h_refused_unknown(void)
     ASSUME(vnacal_new_set_frequency_vector(vnp, f) == 0);
     eq0 = vnp->vn_equations;
     unk0 = vnp->vn_unknown_parameters;
+    hash0 = vnp->vn_parameter_hash.vnph_count;
+    hold0 = _vnacal_get_parameter(vcp, u)->vpmr_hold_count;
     CHECK(ghost_err_calls == 0 && unk0 == 0, "set-up is silent, no unknown parameter yet");
 
     rc = vnacal_new_add_double_reflect_m(vnp, m, 2, 2, u, 7 /* no such parameter */, 1, 2);
@@ -425,9 +427,38 @@ void h_refused_unknown(void)
 	    "the refused standard adds no equation and no standard");
     CHECK(vnp->vn_unknown_parameters == unk0 && vnp->vn_unknown_parameter_list == NULL,
 	    "the refused standard adds no unknown parameter");
+    CHECK(vnp->vn_parameter_hash.vnph_count == hash0 &&
+	    _vnacal_get_parameter(vcp, u)->vpmr_hold_count == hold0,
+	    "nor any other trace of the parameters it named (hash count, hold count)");
+    CHECK(vnp->vn_unknown_parameter_anchor == &vnp->vn_unknown_parameter_list,
+	    "the unknown-parameter list is ready for the next standard");
+
+    /* the same unknown in an acceptable standard: registered once, first index */
+    ghost_err_reset();
+    rc = vnacal_new_add_double_reflect_m(vnp, m, 2, 2, u, VNACAL_OPEN, 1, 2);
+    REACH("accepted double reflect returned");
+    CHECK(rc == 0 && ghost_err_calls == 0, "the corrected call is accepted silently");
+    CHECK(vnp->vn_unknown_parameters == 1 && vnp->vn_unknown_parameter_list != NULL &&
+	    vnp->vn_unknown_parameter_list->vnpr_unknown_index == 0 &&
+	    vnp->vn_unknown_parameter_list->vnpr_next_unknown == NULL,
+	    "and registers the unknown exactly once, as unknown number 0");
+
+    /* a second refusal, now WITH an earlier unknown in place: that one stays */
+    u2 = vnacal_make_unknown_parameter(vcp, VNACAL_OPEN);
+    ASSUME(u2 >= 0);
+    rc = vnacal_new_add_double_reflect_m(vnp, m, 2, 2, u2, 9 /* no such parameter */, 1, 2);
+    CHECK(rc == -1, "a second invalid call is refused");
+    CHECK(vnp->vn_unknown_parameters == 1 && vnp->vn_unknown_parameter_list != NULL &&
+	    vnp->vn_unknown_parameter_list->vnpr_parameter == _vnacal_get_parameter(vcp, u) &&
+	    vnp->vn_unknown_parameter_list->vnpr_next_unknown == NULL &&
+	    vnp->vn_unknown_parameter_anchor == &vnp->vn_unknown_parameter_list->vnpr_next_unknown,
+	    "the unknown registered by the accepted standard is kept, the refused one is not added");
+    CHECK(wf_counts(vnp), "counts still agree with the lists");
     vnacal_new_free(vnp);
     (void)vnacal_delete_parameter(vcp, u);
+    (void)vnacal_delete_parameter(vcp, u2);
     vnacal_free(vcp);
+    /* --memory-leak-check: nodes removed by the roll-back are freed, parameters released */
 }
 
 /*
